@@ -122,7 +122,7 @@ def _shape_chain(n, persists, sibling=None):
 def enumerate_cases(tier, scope):
     shape = _shape_chain(3, [['m0'], None, ['m1', 'm2']], sibling=('C0', ['m3']))
     for fut in FUTURES:
-        for loader in ('default', 'global', 'persave'):
+        for loader in ('default', 'global', 'persave', 'persave+global'):
             for load_with in ('none', 'ctx'):
                 for cls in ('C2', 'D', 'C1'):
                     members = {m: ['val', [1, {'k': [2]}]] for m in sorted(declared(shape, cls))}
@@ -178,7 +178,7 @@ def _cases(draw, tier):
     case = {
         'shape': shape,
         'instance': draw(_instance(shape, 3)),
-        'loader': draw(st.sampled_from(['default', 'default', 'global', 'persave'])),
+        'loader': draw(st.sampled_from(['default', 'default', 'global', 'persave', 'persave+global'])),
         'load_with': draw(st.sampled_from(['none', 'none', 'ctx'])),
     }
     if draw(st.integers(0, 9)) == 0:
@@ -292,6 +292,7 @@ def execute(case):
     prev_global = loaders.get_object_loader()
     custom = loaders_h.TagLoader()
     loaders_h.TagLoader.reset()
+    loaders_h.OtherLoader.reset()
     try:
         with loop.as_running():
             futs = []
@@ -300,6 +301,10 @@ def execute(case):
             if case['loader'] == 'global':
                 loaders.set_object_loader(custom)
             elif case['loader'] == 'persave':
+                save_ctx = persistence.LoadSaveContext(loader=custom)
+            elif case['loader'] == 'persave+global':
+                # a different loader (of a subclass) is installed globally: the one recorded at save must still win
+                loaders.set_object_loader(loaders_h.OtherLoader())
                 save_ctx = persistence.LoadSaveContext(loader=custom)
             try:
                 state = obj.save(save_ctx)
